@@ -18,7 +18,14 @@ pub enum Case {
     /// all 518 conversions again after some context of this process has seen
     /// traffic: the conversions are functions of the byte alone
     AfterTraffic { cfg: CtxCfg, hist: Vec<Op> },
+    /// conversion `kind` (0 command, 1 message type, 2 completion code) of `first`,
+    /// then every conversion of every other byte: a conversion must not depend on
+    /// what was converted before it
+    Pairs { kind: u8, first: u8 },
 }
+
+/// Pair and after-traffic cases run alone; single conversions share the lock.
+static CONVERSIONS: std::sync::RwLock<()> = std::sync::RwLock::new(());
 
 pub struct C19;
 
@@ -83,7 +90,7 @@ impl Prop for C19 {
         "C19"
     }
     fn rule(&self) -> String {
-        "enumerated completely (the conversions take one byte and nothing else): all 256 byte values through CommandCode::from and MessageType::from, bytes 0..5 through CompletionCode::from, each result compared by numeric value (`as u8`) and Debug name with a hand-written DSP0236/DSP0239 table; every defined variant is converted back (`as u8` then from) and must return itself. non-trivial = a defined code point (21 command codes, 5 message types, 6 completion codes); all cases are distinct by construction. generated in addition: the same 518 conversions after a random history (processed packets incl. plausible responses, decodes, encodes, accessor calls) on a random context of the same process - they must not depend on anything but the byte".into()
+        "enumerated completely (the conversions take one byte and nothing else): all 256 byte values through CommandCode::from and MessageType::from, bytes 0..5 through CompletionCode::from, each result compared by numeric value (`as u8`) and Debug name with a hand-written DSP0236/DSP0239 table; every defined variant is converted back (`as u8` then from) and must return itself. non-trivial = a defined code point (21 command codes, 5 message types, 6 completion codes); all cases are distinct by construction. also enumerated: every ordered pair of conversions (one right after the other). generated in addition: the same 518 conversions after a random history (processed packets incl. plausible responses, decodes, encodes, accessor calls) on a random context of the same process - they must not depend on anything but the byte".into()
     }
     fn assumptions(&self) -> Vec<String> {
         vec!["completion-code bytes 6..255 are outside the claim (the conversion is not total there; the decoder guards it, see C10)".into()]
@@ -101,7 +108,7 @@ impl Prop for C19 {
         true
     }
     fn required_labels(&self) -> Vec<&'static str> {
-        vec!["command_defined", "command_undefined", "msgtype_defined", "msgtype_undefined", "completion", "after_traffic"]
+        vec!["command_defined", "command_undefined", "msgtype_defined", "msgtype_undefined", "completion", "after_traffic", "after_other_conversions"]
     }
     fn enumerate(&self, _tier: Tier, shard: usize, nshards: usize, f: &mut dyn FnMut(Case)) {
         for b in 0..=255u32 {
@@ -110,30 +117,73 @@ impl Prop for C19 {
             }
             f(Case::Command { byte: b as u8 });
             f(Case::MsgType { byte: b as u8 });
+            f(Case::Pairs { kind: 0, first: b as u8 });
+            f(Case::Pairs { kind: 1, first: b as u8 });
             if b <= 5 {
                 f(Case::Completion { byte: b as u8 });
+                f(Case::Pairs { kind: 2, first: b as u8 });
             }
         }
     }
     fn enumerated_desc(&self, _tier: Tier) -> Option<String> {
-        Some("all 256 bytes x {CommandCode::from, MessageType::from} and bytes 0..5 x CompletionCode::from: 518 cases, the property's whole domain".into())
+        Some("all 256 bytes x {CommandCode::from, MessageType::from} and bytes 0..5 x CompletionCode::from: 518 cases, the property's whole domain; and each of those 518 conversions immediately followed by each of the 518 (268 324 ordered pairs, run without other conversions of this process in between)".into())
     }
     fn run(&self, case: &Case) -> CaseResult {
+        match case {
+            Case::AfterTraffic { .. } | Case::Pairs { .. } => {
+                let _alone = CONVERSIONS.write().unwrap_or_else(|e| e.into_inner());
+                check_one(case)
+            }
+            _ => {
+                let _shared = CONVERSIONS.read().unwrap_or_else(|e| e.into_inner());
+                check_one(case)
+            }
+        }
+    }
+}
+
+fn check_one(case: &Case) -> CaseResult {
+    {
         let mut r = CaseResult::default();
         match case {
+            Case::Pairs { kind, first } => {
+                r.label("after_other_conversions");
+                r.nontrivial = true;
+                let mk = |k: u8, b: u8| match k {
+                    0 => Case::Command { byte: b },
+                    1 => Case::MsgType { byte: b },
+                    _ => Case::Completion { byte: b },
+                };
+                'outer: for second in 0..=255u8 {
+                    for k2 in 0..3u8 {
+                        if k2 == 2 && second > 5 {
+                            continue;
+                        }
+                        let a = check_one(&mk(*kind, *first));
+                        let b = check_one(&mk(k2, second));
+                        for f in a.failures {
+                            r.fail(f.sig, f.detail);
+                        }
+                        for f in b.failures {
+                            r.fail(format!("{}:after_other_conversions", f.sig), format!("right after converting {:#04x} (kind {}): {}", first, kind, f.detail));
+                        }
+                        if !r.failures.is_empty() {
+                            break 'outer;
+                        }
+                    }
+                }
+            }
             Case::AfterTraffic { cfg, hist } => {
                 r.label("after_traffic");
                 r.nontrivial = !hist.is_empty();
                 // one such case at a time in this process, so that state kept outside
                 // the contexts is attributed to the history that created it
-                static ONE_AT_A_TIME: std::sync::Mutex<()> = std::sync::Mutex::new(());
-                let _guard = ONE_AT_A_TIME.lock().unwrap_or_else(|e| e.into_inner());
                 // the conversions must be right before the history as well; if they
                 // are not, earlier cases of this process have left something behind
                 // and this case cannot tell what its own history did (separate
                 // signature, so that shrinking keeps the history that matters)
                 for b in 0..=255u8 {
-                    let pre = [self.run(&Case::Command { byte: b }), self.run(&Case::MsgType { byte: b })];
+                    let pre = [check_one(&Case::Command { byte: b }), check_one(&Case::MsgType { byte: b })];
                     if let Some(f) = pre.iter().flat_map(|x| x.failures.iter()).next() {
                         r.fail(format!("{}:process_state_left_by_earlier_calls", f.sig), format!("before this case's history ran (state left behind by earlier library calls of this process): {}", f.detail));
                         return r;
@@ -145,9 +195,9 @@ impl Prop for C19 {
                     let _ = sut::apply_op(&mut ctx, op);
                 }
                 for b in 0..=255u8 {
-                    let mut sub = vec![self.run(&Case::Command { byte: b }), self.run(&Case::MsgType { byte: b })];
+                    let mut sub = vec![check_one(&Case::Command { byte: b }), check_one(&Case::MsgType { byte: b })];
                     if b <= 5 {
-                        sub.push(self.run(&Case::Completion { byte: b }));
+                        sub.push(check_one(&Case::Completion { byte: b }));
                     }
                     for s in sub {
                         for f in s.failures {
